@@ -62,6 +62,24 @@ CHECKS = {
              "every table template and every python function that pushes or "
              "pops a list. Exception edges excluded.",
         ref="DESIGN.md §3 C12"),
+    "C18": dict(
+        technique="taint / sanitiser analysis: abstract interpretation of "
+                  "transpile.py in a template domain with sanitiser classes, "
+                  "regex-class contents from re._parser, escaping loop "
+                  "verified as a transducer over a class alphabet",
+        category="other",
+        text="Decides for every input string that program text reaches "
+             "returned code only inside string/number constants or as the "
+             "tail of a fixed-prefix identifier: every program-derived value "
+             "in transpile_token/transpile_structure/transpile_lambda is "
+             "tracked with its sanitiser class (int(), !r, negated-class "
+             "re.sub with kept set, token value language from the lexer, "
+             "verified escaping loop, token_hex) and checked against the "
+             "python context of the constant template text around it; "
+             "element/modifier code comes only from table lookups; every "
+             "structure.Lambda arity is an int or 'default' at its "
+             "construction site.",
+        ref="DESIGN.md §3 C18"),
     "C20": dict(
         technique="constant folding of code page / tables + abstract lexer "
                   "head-dispatch table, exhaustive over all keys",
